@@ -2587,6 +2587,10 @@ class PGPKey(Armorable, ParentRef, PGPObject):
         :returns: A new :py:obj:`PGPMessage` with the decrypted contents of ``message``.
         """
         if not message.is_encrypted:
+            if message._sessionkeys:
+                # session key packets that are not followed by an encrypted data packet: cut short, not "not encrypted"
+                raise PGPError("This message has session key packets but no encrypted data packet")
+
             warnings.warn("This message is not encrypted", stacklevel=3)
             return message
 
